@@ -8,6 +8,9 @@ import json, subprocess, sys, os, tempfile, xml.etree.ElementTree as ET
 
 def main():
     n = "12"
+    repo = "/repo"
+    if "--repo" in sys.argv:
+        repo = sys.argv[sys.argv.index("--repo") + 1]
     if "-n" in sys.argv:
         n = sys.argv[sys.argv.index("-n") + 1]
     base = json.load(open("/root/.vp/BASELINE.json"))
@@ -16,7 +19,7 @@ def main():
            "--continue-on-collection-errors", f"--junitxml={out}", "-n", n]
     env = dict(os.environ)
     env.pop("SCHEMATHESIS_VERIF", None)
-    subprocess.run(cmd, cwd="/repo", env=env, stdout=subprocess.DEVNULL, stderr=subprocess.DEVNULL)
+    subprocess.run(cmd, cwd=repo, env=dict(env, PYTHONPATH=repo + "/src"), stdout=subprocess.DEVNULL, stderr=subprocess.DEVNULL)
     passed = set()
     for tc in ET.parse(out).getroot().iter("testcase"):
         if not any(ch.tag in ("failure", "error", "skipped") for ch in tc):
